@@ -266,6 +266,35 @@ fn resample2(spec: &Curve2Spec, mode: &Mode) -> Verdict {
         }
     }
     ensure!(r.length() <= total * (1.0 + 1e-9) + 1e-9 * b.model.scale() || b.closed, "C05/resample2/longer_than_source", "result length {:e} exceeds source length {total:e}", r.length());
+    // the same request on the reversed curve: a curve derived from another one is resampled like a fresh curve with its
+    // vertices (its positions follow its own, mirrored, arc lengths)
+    if !b.closed {
+        let rev = b.curve.reversed();
+        if let Err(f) = derived_curve2_consistent("C05/resample2/reversed_source", &rev) {
+            return Verdict::Fail(f);
+        }
+        let rmodel = Poly::new(rev.points().to_vec());
+        if let Ok(Ok(rr)) = guarded(|| rev.resample(to_mode(mode, total))) {
+            // same exclusion as for the source itself: on a self-touching curve two consecutive samples can coincide and
+            // de-duplication then changes the count (tried for the neighbouring counts as well, the reversed curve's
+            // length may differ from the source's by an ulp and tip the sample count)
+            let c = rr.count();
+            let tip = match mode {
+                Mode::ByMaxSpacing(f) => (1.0 / f).ceil() as usize + 2,
+                Mode::ByCount(n) => *n,
+                Mode::BySpacing(f) => (1.0 / f).round() as usize + 1,
+            };
+            if [c.saturating_sub(1), c, c + 1, tip.saturating_sub(1), tip, tip + 1].iter().any(|k| *k >= 2 && samples_collapse(&rmodel, spec.tol, mode, Some(*k))) {
+                return Verdict::Discard("expected samples coincide within tol (self-retracing source)");
+            }
+            let mut scratch = Ctx::new();
+            if let Err(mut f) = validate_resample(&mut scratch, "2", &rmodel, spec.tol, mode, rr.points()) {
+                f.sig = format!("{}/of_reversed_curve", f.sig);
+                return Verdict::Fail(f);
+            }
+            cx.label("resample_of_reversed");
+        }
+    }
     len_labels(&mut cx, total, b.closed);
     cx.pass()
 }
